@@ -155,6 +155,16 @@ keyUsage=digitalSignature
 subjectAltName=DNS:leaf.example.com
 authorityKeyIdentifier=keyid,issuer
 crlDistributionPoints=URI:http://crl.example.com/a.crl
+[pool_ca]
+basicConstraints=critical,CA:TRUE
+keyUsage=critical,keyCertSign,cRLSign
+subjectKeyIdentifier=hash
+authorityKeyIdentifier=keyid
+[pool_leaf]
+basicConstraints=CA:FALSE
+keyUsage=digitalSignature,keyAgreement
+subjectKeyIdentifier=hash
+authorityKeyIdentifier=keyid
 [dirsect]
 C=FI
 O=Dir Org
@@ -177,6 +187,49 @@ fullname=URI:http://crl.example.com/a.crl
 basicConstraints=CA:FALSE
 extendedKeyUsage=OCSPSigning
 """
+
+
+def mint_pool(m):
+    """Certificate pool for the structured bundle target (c09_cert_bundle): chain A root->int->int->leaf, chain B
+    root->leaf, two unrelated self-signed certificates.  Written to props/C09/cert_pool.h as DER arrays."""
+    K = lambda f: os.path.join(TK, f)
+    def selfsigned(name, key, cn):
+        run('openssl', 'req', '-x509', '-new', '-key', K(key), '-subj', '/C=FI/O=Verif Pool/CN=' + cn, '-config', 'o.cnf', '-extensions', 'pool_ca', '-days', '7300', '-sha256', '-out', name + '.pem')
+    def issued(name, key, cn, ca, cakey, ext, serial):
+        run('openssl', 'req', '-new', '-key', K(key), '-subj', '/C=FI/O=Verif Pool/CN=' + cn, '-config', 'o.cnf', '-out', name + '.csr')
+        run('openssl', 'x509', '-req', '-in', name + '.csr', '-CA', ca + '.pem', '-CAkey', K(cakey), '-set_serial', str(serial), '-days', '7000', '-sha256',
+            '-extfile', 'o.cnf', '-extensions', ext, '-out', name + '.pem')
+    selfsigned('pA0', 'EC/256_EC_CA_KEY.pem', 'Pool A Root')
+    issued('pA1', 'EC/224_EC_CA_KEY.pem', 'Pool A Int 1', 'pA0', 'EC/256_EC_CA_KEY.pem', 'pool_ca', 11)
+    issued('pA2', 'EC/224_EC_KEY.pem', 'Pool A Int 2', 'pA1', 'EC/224_EC_CA_KEY.pem', 'pool_ca', 12)
+    issued('pA3', 'EC/256_EC_KEY.pem', 'pool-a-leaf.example.com', 'pA2', 'EC/224_EC_KEY.pem', 'pool_leaf', 13)
+    selfsigned('pB0', 'EC/384_EC_CA_KEY.pem', 'Pool B Root')
+    issued('pB1', 'EC/384_EC_KEY.pem', 'pool-b-leaf.example.com', 'pB0', 'EC/384_EC_CA_KEY.pem', 'pool_leaf', 21)
+    selfsigned('pU0', 'EC/192_EC_CA_KEY.pem', 'Pool Unrelated 0')
+    selfsigned('pU1', 'EC/521_EC_CA_KEY.pem', 'Pool Unrelated 1')
+    names = ['pA3', 'pA2', 'pA1', 'pA0', 'pB1', 'pB0', 'pU0', 'pU1']
+    for n in names:
+        m[n] = rd(os.path.join(W, n + '.pem'))
+    keys = {'pA3': 'EC/256_EC_KEY.pem', 'pB1': 'EC/384_EC_KEY.pem'}
+    h = ['// cert_pool.h - generated by make_corpus.py (mint_pool); do not edit.',
+         '// 0..3 = chain A leaf, int2, int1, root; 4..5 = chain B leaf, root; 6..7 = unrelated self-signed.',
+         '#pragma once', '#include <cstdint>', '#include <cstddef>']
+    def arr(name, data):
+        h.append('static const uint8_t %s[] = {%s};' % (name, ','.join(str(b) for b in data)))
+    for i, n in enumerate(names):
+        arr('kPoolCert%d' % i, pem2der(m[n]))
+    arr('kPoolKeyA', pem2der(rd(keys['pA3'])))
+    arr('kPoolKeyB', pem2der(rd(keys['pB1'])))
+    h.append('struct PoolCert { const uint8_t *p; size_t n; const char *name; };')
+    h.append('static const PoolCert kPool[] = {%s};' % ','.join('{kPoolCert%d,sizeof kPoolCert%d,"%s"}' % (i, i, n) for i, n in enumerate(names)))
+    h.append('static const size_t kPoolN = %d;' % len(names))
+    open(os.path.join(os.path.dirname(os.path.abspath(__file__)), 'cert_pool.h'), 'w').write('\n'.join(h) + '\n')
+    # PKCS#12 with several certificate bags in shuffled order (leaf, unrelated, unrelated, int2, int1, root)
+    w('pool_extra.pem', m['pU0'] + m['pU1'] + m['pA2'] + m['pA1'] + m['pA0'])
+    p12 = ['openssl', 'pkcs12', '-export', '-legacy', '-macalg', 'sha1', '-iter', '16', '-maciter', '-passout', 'pass:pw', '-keypbe', 'PBE-SHA1-3DES', '-certpbe', 'PBE-SHA1-3DES']
+    m['p12_pool_shuffled'] = run(*p12, '-inkey', K('EC/256_EC_KEY.pem'), '-in', 'pA3.pem', '-certfile', 'pool_extra.pem')
+    w('pool_extra2.pem', m['pA0'] + m['pA1'] + m['pA2'])
+    m['p12_pool_reversed'] = run(*p12, '-inkey', K('EC/256_EC_KEY.pem'), '-in', 'pA3.pem', '-certfile', 'pool_extra2.pem')
 
 
 def mint():
@@ -242,6 +295,7 @@ def mint():
     m['p12_rsa_chain'] = run(*p12, '-keypbe', 'PBE-SHA1-3DES', '-certpbe', 'PBE-SHA1-RC2-40', '-inkey', os.path.join(TK, 'RSA/1024_RSA_KEY.pem'), '-in', os.path.join(TK, 'RSA/1024_RSA.pem'), '-certfile', os.path.join(TK, 'RSA/1024_RSA_CA.pem'))
     m['p12_ec'] = run(*p12, '-keypbe', 'PBE-SHA1-3DES', '-certpbe', 'PBE-SHA1-3DES', '-inkey', os.path.join(TK, 'EC/256_EC_KEY.pem'), '-in', os.path.join(TK, 'EC/256_EC.pem'))
     m['p12_nomac'] = run(*p12, '-nomac', '-keypbe', 'PBE-SHA1-3DES', '-certpbe', 'NONE', '-inkey', os.path.join(TK, 'EC/256_EC_KEY.pem'), '-in', os.path.join(TK, 'EC/256_EC.pem'))
+    mint_pool(m)
     m['p12_empty_pw'] = run(*[x if x != 'pass:pw' else 'pass:' for x in p12], '-keypbe', 'PBE-SHA1-3DES', '-certpbe', 'PBE-SHA1-3DES', '-inkey', os.path.join(TK, 'EC/256_EC_KEY.pem'), '-in', os.path.join(TK, 'EC/256_EC.pem'))
     return m
 
@@ -316,6 +370,9 @@ def main():
     put('c09_pkcs12', 'p12_rsa', [0], [m['p12_rsa']])
     put('c09_pkcs12', 'p12_rsa_sslkeys', [1], [m['p12_rsa']])
     put('c09_pkcs12', 'p12_rsa_chain', [0], [m['p12_rsa_chain']])
+    put('c09_pkcs12', 'p12_pool_shuffled_sslkeys', [1], [m['p12_pool_shuffled']])
+    put('c09_pkcs12', 'p12_pool_reversed_sslkeys', [1], [m['p12_pool_reversed']])
+    put('c09_pkcs12', 'p12_pool_shuffled', [0], [m['p12_pool_shuffled']])
     put('c09_pkcs12', 'p12_ec', [0], [m['p12_ec']])
     put('c09_pkcs12', 'p12_ec_sslkeys_macpw', [1 | 8], [m['p12_ec']])
     put('c09_pkcs12', 'p12_nomac', [0], [m['p12_nomac']])
@@ -389,6 +446,15 @@ def main():
     put('c09_load_keys_mem', 'ed25519', [4 | A], [rd('EC/ED25519.pem'), rd('EC/ED25519_KEY.pem'), rd('EC/ED25519_CA.pem')])
     put('c09_load_keys_mem', 'chain_p8key', [1 | A], [rd('RSA/1024_RSA.pem') + rd('RSA/1024_RSA_CA.pem'), m['p8_rsa'], b''])
     put('c09_load_keys_mem', 'ca_only_bundle', [1 | A], [b'', b'', rd('EC/ALL_EC_CAS_EXCEPT_P192_AND_P224.pem')])
+    poolkey = pem2der(rd('EC/256_EC_KEY.pem'))
+    put('c09_load_keys_mem', 'pool_chain_shuffled', [3 | A], [m['pA3'] + m['pA1'] + m['pA0'] + m['pA2'], poolkey, b''])
+    put('c09_load_keys_mem', 'pool_chain_issuer_late', [3 | A], [m['pA3'] + m['pA0'] + m['pA1'] + m['pA2'], rd('EC/256_EC_KEY.pem'), m['pA0']])
+    put('c09_load_keys_mem', 'pool_chain_extras', [1 | A], [m['pA3'] + m['pU0'] + m['pU1'] + m['pA2'] + m['pA1'] + m['pA0'], poolkey, b''])
+    put('c09_load_keys_mem', 'pool_chain_der', [3 | A], [b''.join(pem2der(m[x]) for x in ('pA3', 'pA0', 'pA2', 'pA1')), poolkey, b''])
+    # c09_cert_bundle tapes: [sel][count byte][pool indexes]
+    for i, (sel, idx) in enumerate([(0, [0, 1, 2, 3]), (1, [0, 3, 2, 1]), (2, [0, 6, 7, 1, 2, 3]), (3, [0, 2, 3, 1]), (4, [4, 0, 5, 3, 2, 1]), (5, [0, 0, 1, 1, 2, 3]),
+                                   (6, [0, 6, 7, 1]), (1, [0, 3, 1, 2]), (0, [3, 2, 1, 0]), (2, [4, 6, 7, 5]), (7, [0, 4, 5, 3, 2, 1])]):
+        put('c09_cert_bundle', 'tape_%02d' % i, [sel, len(idx) - 2], [bytes(idx)])
     put('c09_load_keys_mem', 'mismatch', [0], [rd('RSA/1024_RSA.pem') + rd('RSA/1024_RSA_CA.pem'), rd('RSA/2048_RSA_KEY.pem'), rd('ECDH_RSA/CAcertRSA.pem')])
     put('c09_load_keys_mem', 'ecdh_rsa', [3 | A], [rd('ECDH_RSA/256_ECDH-RSA.pem'), rd('ECDH_RSA/256_ECDH-RSA_KEY.pem'), rd('ECDH_RSA/1024_ECDH-RSA_CA.pem')])
     n = sum(len([f for f in os.listdir(os.path.join(OUT, d)) if os.path.isfile(os.path.join(OUT, d, f))]) for d in os.listdir(OUT))
